@@ -49,7 +49,16 @@ FirstDiff(a, b) ==
         d == {i \in 1..n : a[i] # b[i]}
     IN  IF d = {} THEN n + 1 ELSE Min(d)
 
+\* vacuity watch: how often each action of ScxmlStep was the one that explained a
+\* recorded step() (TLC's own -coverage runs out of memory on chart values)
+ActionNames == <<"Initialize", "FinishedAgain", "Complete", "EnterInitial", "EventlessRound",
+                 "InternalRound", "MacrostepEnd", "ExternalRound", "CancelSeen", "Idle">>
+ActIdx(n) == 10 + (CHOOSE i \in 1..Len(ActionNames) : ActionNames[i] = n)
+Count(n) == TLCSet(ActIdx(n), TLCGet(ActIdx(n)) + 1)
+PrintCounts == PrintT("COUNTS " \o ToJson([i \in 1..Len(ActionNames) |-> <<ActionNames[i], TLCGet(10 + i)>>]))
+
 TInit ==
+    /\ \A i \in 1..Len(ActionNames) : TLCSet(10 + i, 0)
     /\ LoadCharts(ndJsonDeserialize(IOEnv.CHARTS))
     /\ LoadTrace
     /\ InitFor(1)
@@ -89,6 +98,7 @@ TStep ==
            badCfg   == settled /\ ecfg # gcfg
            badRet   == r.ret # Line.ret
        IN  /\ Apply(r)
+           /\ Count(StepName)
            /\ IF badLegal \/ badAtoms \/ badCfg \/ badRet
               THEN /\ ~Strict
                    /\ skip' = TRUE
@@ -137,7 +147,9 @@ TSkip ==
     /\ UNCHANGED <<vars, skip, case>>
     /\ l' = l + 1
 
-TNext == l <= Len(TraceLog) /\ (TReset \/ TStep \/ TReceive \/ TCancel \/ TEnd \/ TSkip)
+TNext == /\ l <= Len(TraceLog)
+         /\ (TReset \/ TStep \/ TReceive \/ TCancel \/ TEnd \/ TSkip)
+         /\ (l = Len(TraceLog) => PrintCounts)
 
 TraceSpec == TInit /\ [][TNext]_tvars
 
